@@ -26,3 +26,22 @@ Qed.
 (* connect without an explicit slave: TCP 255 (Slave::tcp_device), RTU 0 (Slave::broadcast) *)
 Theorem C17_connect_defaults : sync_connect TCP None = sync_connect TCP (Some 255) /\ sync_connect RTU None = sync_connect RTU (Some 0).
 Proof. split; reflexivity. Qed.
+
+(* the blocking context = async context + the timeout applied to every subsequent operation: given at connect time,
+   replaced by set_timeout, cleared by reset_timeout, never changed by an operation; an operation runs under exactly
+   the timeout in force when it is issued, and set_timeout / reset_timeout / timeout() do not touch the connection *)
+Theorem C17_timeout_in_force : forall p m c req t,
+  fst (sctx_call p m (sync_set_timeout c t) req) = fst (sync_call p m (match t with Some _ => true | None => false end) (s_client c) req)
+  /\ s_timeout (snd (sctx_call p m c req)) = s_timeout c
+  /\ s_timeout (snd (sctx_typed p m c req)) = s_timeout c
+  /\ s_client (sync_set_timeout c t) = s_client c /\ s_client (sync_reset_timeout c) = s_client c
+  /\ s_timeout (sync_reset_timeout c) = None /\ s_timeout (sctx_set_slave c 7) = s_timeout c.
+Proof.
+  intros. unfold sctx_call, sctx_typed, sync_set_timeout, timed; cbn [s_client s_timeout].
+  destruct (sync_call p m _ (s_client c) req) as [r st'] eqn:E1.
+  destruct (sync_call p m (match s_timeout c with Some _ => true | None => false end) (s_client c) req) as [r2 st2].
+  destruct (sync_typed p m _ (s_client c) req) as [r3 st3]. repeat split.
+Qed.
+Theorem C17_connect_variants : forall p slave tmo,
+  s_client (sync_connect_ctx p slave tmo) = sync_connect p slave /\ s_timeout (sync_connect_ctx p slave tmo) = tmo.
+Proof. split; reflexivity. Qed.
